@@ -476,6 +476,72 @@ def run_penalties(ck, nmax, per):
                 ck.violation("C12/%s_penalty/not-psd" % kind, "%s: min eigenvalue %g" % (rep, w.min()), rep, found_input=True)
 
 
+# ------------------------------------------------------------------------------------ penalty call sequences
+KEYSETS = [("N",), ("Sz",), ("S^2",), ("N", "Sz"), ("N", "S^2"), ("Sz", "S^2"), ("N", "Sz", "S^2")]
+
+
+def gen_penalty_sequence(rng, n):
+    """2-4 combined_penalty calls with DIFFERENT key sets, weights and targets (one process, in this order)"""
+    ud = rng.random() < 0.5
+    calls = []
+    sets = rng.sample(KEYSETS, rng.randint(2, 4))
+    for ks in sets:
+        opts = []
+        for key in ks:
+            mu = rng.choice([rand_dyadic(rng, 1, 12), rand_dyadic(rng, 1, 12), Fraction(0), Fraction(-1, 2)])
+            tr = {"N": (0, 2 * n), "Sz": (-n, n), "S^2": (0, 3)}[key]
+            opts.append((key, mu, rand_dyadic(rng, tr[0], tr[1], 2)))
+        calls.append(opts)
+    return {"kind": "penalty_seq", "n": n, "ud": ud,
+            "calls": [[[k, str(m), str(t)] for k, m, t in c] for c in calls]}
+
+
+def run_penalty_sequence(ck, rep):
+    """every call is compared with mu (O - t)^2 summed over the options of THAT call alone; the caller's options
+    dictionary must come back unchanged"""
+    import copy
+    from tangelo.toolboxes.ansatz_generator import penalty_terms as pt
+    n, ud = rep["n"], rep["ud"]
+    ok = True
+    for ci, call in enumerate(rep["calls"]):
+        arg = tuple((k, Fraction(m), Fraction(t)) for k, m, t in call)
+        opts = {k: [float(m), float(t)] for k, m, t in arg}
+        snap = copy.deepcopy(opts)
+        try:
+            fop = pt.combined_penalty(n, opts, up_then_down=ud)
+            imat = fock_matrix(fop.terms, 2 * n)
+        except Exception as e:
+            ck.violation("C12/combined_penalty/call-sequence-raises", "call %d of %s raised %r" % (ci, rep, e),
+                         dict(rep, failing_call=ci), found_input=True)
+            return False
+        if opts != snap:
+            ok = False
+            ck.violation("C12/combined_penalty/options-dict-mutated",
+                         "combined_penalty(%d, %s, up_then_down=%s) changed the caller's options to %s (call %d of the "
+                         "sequence %s)" % (n, snap, ud, opts, ci, rep["calls"]), dict(rep, failing_call=ci), found_input=True)
+        emat = expected_penalty("combined", n, ud, arg)
+        if imat != emat:
+            ok = False
+            (e, d), a, b = first_diff(imat, emat)
+            ck.violation("C12/combined_penalty/depends-on-earlier-calls" if ci > 0 else "C12/combined_penalty/wrong-value",
+                         "call %d of the sequence %s (n_orbs=%d, up_then_down=%s): combined_penalty(%s) gives <%d|P|%d> = %s, "
+                         "the options of this call alone give %s" % (ci, rep["calls"], n, ud, snap, e, d, a, b),
+                         dict(rep, failing_call=ci), found_input=True)
+    return ok
+
+
+def run_penalty_sequences(ck, count):
+    ck.stream("penalty-call-sequences", "2-4 successive combined_penalty calls in one process with different key sets "
+              "(N / Sz / S^2 alone, pairs, all three; zero and negative prefactors), n_orbs 1..2: exact Fock matrix of "
+              "every result vs mu (O-t)^2 for the options of that call alone; caller's options dict unchanged; "
+              "non-trivial = key sets differ between calls")
+    for i in range(count):
+        rep = gen_penalty_sequence(ck.rng, 1 + i % 2)
+        run_penalty_sequence(ck, rep)
+        ck.case("penalty-call-sequences", json.dumps(rep), nontrivial=True,
+                sample=rep, tags=["calls=%d" % len(rep["calls"]), "n=%d" % rep["n"]])
+
+
 # ------------------------------------------------------------------------------------ molecules, generators
 _MOL = {}
 
@@ -1018,6 +1084,7 @@ def run(ck):
         # the model cannot be evaluated; the implementation-only oracles below still run
         ck.notes["model_evaluation"] = "skipped (generated table unavailable)"
         oracle_only_operators(ck, 3)
+    run_penalty_sequences(ck, 12 if quick else 80)
     run_generators_and_states(ck, ALL_MOLS, 2 if quick else 10)
     run_histories(ck, ALL_MOLS if not quick else ["H2", "H4", "H4+", "H4-fc", "H4+-fv"])
 
@@ -1086,6 +1153,10 @@ def replay(data):
         st = check_state(ck, "replay", "replay", r, a.circuit, layout, n, nel, sz_ref if r["cls"] != "pUCCD" else 0.0)
         print(st)
         return 1 if ck.violations else 0
+    if kind == "penalty_seq":
+        ok = run_penalty_sequence(ck, r)
+        print("sequence of %d combined_penalty calls: %s" % (len(r["calls"]), "every call exact" if ok else "FAILS"))
+        return 0 if ok and not ck.violations else 1
     if kind == "molecule":
         print(ref_sector(ck, r["mol"]))
         return 1 if ck.violations else 0
